@@ -103,12 +103,18 @@ func (w *world) deliver(sd *side, scope string, expect int) []string {
 	if err := sd.mgr.wm.BroadcastEvent("verif", scope, map[string]int{"x": 1}); err != nil {
 		return []string{"err"}
 	}
-	deadline := time.Now().Add(1500 * time.Millisecond)
-	for time.Now().Before(deadline) {
+	// deliveries are asynchronous (one goroutine per hook): wait until as many sink paths were hit as the
+	// registered scopes call for (at most 6 s on a loaded machine), 100 ms when nothing is expected
+	limit := 6 * time.Second
+	if hs, _ := sd.mgr.wm.Webhooks(); len(hs) == 0 {
+		limit = 300 * time.Millisecond // a manager without hooks cannot deliver anything
+	}
+	start := time.Now()
+	for time.Since(start) < limit {
 		if len(w.sink.got()) >= expect && expect > 0 {
 			break
 		}
-		if expect == 0 && time.Now().After(deadline.Add(-1400*time.Millisecond)) {
+		if expect == 0 && time.Since(start) > 100*time.Millisecond {
 			break
 		}
 		time.Sleep(5 * time.Millisecond)
